@@ -38,3 +38,7 @@ func VerifC02PrepareNSEC3(records []dns.RR, signer string) (owners [][]byte, cla
 
 // VerifC02SignatureMatches exposes signatureMatchesRRset (which RRSIG may vouch for which RRset).
 func VerifC02SignatureMatches(sig *dns.RRSIG, set []dns.RR) bool { return signatureMatchesRRset(sig, set) }
+
+// VerifC02TypesSet exposes typesSet, the type-bitmap membership test every NSEC
+// and NSEC3 check is written in (accessor only).
+func VerifC02TypesSet(set []uint16, types ...uint16) bool { return typesSet(set, types...) }
